@@ -38,10 +38,10 @@ def plan(tier, seed):
         for k in range(8):
             o = orders4[(seed * 7 + k * 5) % 24]
             specs.append(dict(kind='all4', order=o, sample=8000, sub=k))
-    nh = 32 if tier == 'thorough' else 16
+    nh = 128 if tier == 'thorough' else 16
     for k in range(nh):
         specs.append(dict(kind='history', sub=k, n=3 + k % 4,
-                          steps=1200 if tier == 'thorough' else 500,
+                          steps=3000 if tier == 'thorough' else 500,
                           auto=(k % 3 == 2), hashseed=k))
     meta = dict(
         rule=RULE,
